@@ -333,22 +333,27 @@ def replay(cfg, ops, seed=0, always_consistent=False, clock=1600000000.0):
     env.reset(seed, clock)
     s = Session(cfg, seed, always_consistent).new()
     for op in ops:
-        if op['op'] == 'reopen':
-            # marker: master the image here and continue on a fresh object that opened it
-            img, oc = s.write()
-            if not oc.ok:
-                s.reopen_failed = 'write: ' + oc.summary()
-                break
-            s2, oc2 = s.reopen(img)
-            if not oc2.ok:
-                s.reopen_failed = 'open: ' + oc2.summary()
-                s2.close()
-                break
-            s.close()
-            s = s2
-            continue
-        s.step(op)
+        s, out = advance(s, op)
+        if op['op'] == 'reopen' and not out.ok:
+            s.reopen_failed = out.summary()
+            break
     return s
+
+
+def advance(s, op):
+    """One step of a recorded history.  The marker {'op': 'reopen'} masters the image and continues
+    on a fresh object that opened it; returns (session to continue with, Outcome)."""
+    if op['op'] != 'reopen':
+        return s, s.step(op)
+    img, oc = s.write()
+    if not oc.ok:
+        return s, Outcome(False, oc.exc_class, 'write before reopen: %s' % oc.exc_msg, oc.exc_where)
+    s2, oc2 = s.reopen(img)
+    if not oc2.ok:
+        s2.close()
+        return s, Outcome(False, oc2.exc_class, 'open: %s' % oc2.exc_msg, oc2.exc_where)
+    s.close()
+    return s2, Outcome(True)
 
 
 def dump_replay(path, prop, cfg, ops, seed, extra=None):
